@@ -3,16 +3,19 @@
 Exit 0 iff every stable_pass test passes."""
 import json, subprocess, sys, os, tempfile, xml.etree.ElementTree as ET
 base = json.load(open('/root/.vp/BASELINE.json'))
+REPO = os.environ.get('VERIF_REPO', '/repo')
 work = os.path.join(os.path.dirname(os.path.abspath(__file__)), '..', '.work')
 os.makedirs(work, exist_ok=True)
 junit = os.path.join(work, 'baseline.junit.xml')
-cmd = base['cmd'].replace('<file>', junit)
+cmd = base['cmd'].replace('<file>', junit).replace('cd /repo', 'cd ' + REPO)
 env = dict(os.environ); env.pop('MEASURED_VERIF', None)
+if REPO != '/repo':
+    env['PYTHONPATH'] = os.path.join(REPO, 'src'); env['PATH'] = '/venv/bin:' + env.get('PATH', '')
 import shutil
 def _clean():
     # hypothesis' example database would replay a once-found failure forever; keep /repo pristine
     for d in ('.hypothesis', '.benchmarks', '.coverage', '.pytest_cache'):
-        p = os.path.join('/repo', d)
+        p = os.path.join(REPO, d)
         if os.path.isdir(p): shutil.rmtree(p, ignore_errors=True)
         elif os.path.exists(p): os.remove(p)
 _clean()
@@ -30,11 +33,11 @@ for t in missing:
     mod, name = t.split('::', 1)
     path = mod.replace('.', '/') + '.py'
     ok = False
-    if os.path.exists(os.path.join('/repo', path)) and len(missing) <= 5:
+    if os.path.exists(os.path.join(REPO, path)) and len(missing) <= 5:
         for _ in range(3):
             _clean()
             r = subprocess.run(['/venv/bin/python', '-m', 'pytest', '-q', '-p', 'no:cacheprovider',
-                                f'{path}::{name}'], cwd='/repo', env=env, stdout=subprocess.DEVNULL, stderr=subprocess.DEVNULL)
+                                f'{path}::{name}'], cwd=REPO, env=env, stdout=subprocess.DEVNULL, stderr=subprocess.DEVNULL)
             if r.returncode == 0:
                 ok = True
                 break
